@@ -197,6 +197,20 @@ def apply_op(st, kind, op, why, shapes):
             pass
         except Exception as e:  # noqa: BLE001
             why.append((f"nobases:refused-with-{type(e).__name__}-not-ValueError", dict(error=str(e))))
+        # the refusal does not depend on the state the model is in: with a stop request still pending (the
+        # normal condition after an early-stopped run) the call is refused all the same, not silently skipped
+        st.stop_training = True
+        try:
+            with env:
+                st.fit(DATA, epochs=1, callbacks=cbs)
+            why.append(("nobases:training-without-bases-accepted-while-a-stop-is-pending", None))
+        except ValueError:
+            pass
+        except Exception as e:  # noqa: BLE001
+            why.append((f"nobases:refused-with-{type(e).__name__}-not-ValueError", dict(error=str(e), stop_pending=True)))
+        if st.stop_training is not True:
+            why.append(("nobases:refused-call-cleared-the-stop-request", None))
+        st.stop_training = False
         if ev or before != [h for (_, _, h, _) in allp()] or env.calls or not torch.equal(rs, torch.get_rng_state()):
             why.append(("nobases:something-changed-before-refusal", dict(events=ev, random_calls=env.calls[:3])))
         if bumped:
